@@ -556,3 +556,21 @@ func (p *Portfolio) CrossCheck(tb *TB, as []*Term, first string, timeout time.Du
 	}
 	return CheckResult{Status: "unknown"}
 }
+
+// Model: a satisfying assignment for the requested terms, trying the fast feasibility back ends first.
+func (p *Portfolio) Model(tb *TB, as []*Term, want []*Term, timeout time.Duration) CheckResult {
+	order := p.feas
+	if p.lastFeas != "" {
+		order = append([]string{p.lastFeas}, order...)
+	}
+	var last CheckResult
+	for _, n := range order {
+		r := p.procs[n].Check(tb, as, want, timeout/2)
+		p.record(r)
+		if r.Status != "unknown" {
+			return r
+		}
+		last = r
+	}
+	return last
+}
